@@ -39,7 +39,12 @@ CLAIM = dict(
          "C02_sha256_vectors by kernel evaluation) and the model reader identifies descriptors with it. Tie: "
          "implementation bytes are decoded by the Lean reference reader to the records written; independently encoded "
          "conforming streams (non-minimal msgpack classes, older shapes) are decoded by the implementation; frozen "
-         "golden corpus; identifiers re-computed with hashlib.",
+         "golden corpus; identifiers re-computed with hashlib. FIELD VALUES: for every field whose encoding the Lean "
+         "field layer states (Model/FieldPack.lean: text, integers, booleans, floats, bytes, digest, path, command, "
+         "net.ipaddress, net.ipnetwork, typed lists - also lists that received elements in place) the typed value is "
+         "observed through its public attributes, packed by the model (`packT`) and by a Python reference written from "
+         "the format description, and both must equal what an independent msgpack decoder finds at that slot of the "
+         "stream (the implementation's own _pack() is not consulted).",
     note="partial: 'streams archived from earlier releases' are represented by the shapes the compatibility code names "
          "(extra reserved fields, no version, name-only identifier) plus a golden corpus frozen at the pinned revision; "
          "no archive of historical files exists in the sandbox. SHA-256 is an executable definition inside the model, checked by the kernel on the standard vectors and against hashlib on every generated descriptor (no theorem relies on a property of the hash).",
